@@ -18,9 +18,13 @@ def aircraft_lines(rng, n, lat, lon, spread_km=150):
         if k % 3 == 1 and out:
             la, lo = prev  # every third aircraft flies in formation: same 0.01 degree cell (coverage heat map)
         prev = (la, lo)
-        out.append(enc.line(enc.long_frame(17, 5, addr, enc.me_ident(4, 0, "T%05d" % k))))
-        out.append(enc.line(enc.long_frame(17, 5, addr, enc.me_airpos(11, 1000 + 25 * rng.randrange(1500), la, lo, False))))
-        out.append(enc.line(enc.long_frame(17, 5, addr, enc.me_airpos(11, 1000 + 25 * rng.randrange(1500), la, lo, True))))
+        # flight ids as transponders really send them: eight characters, one character, none entered
+        # (eight blanks), blanks inside, the characters outside A-Z/0-9, or no identification at all
+        cs = ["T%05d" % k, "T%05d" % k, "        ", "X", "AB  CD 1", "12345678", "#A#B#C#D", " LEAD", None][rng.randrange(9)]
+        ident = [] if cs is None else [enc.line(enc.long_frame(17, 5, addr, enc.me_ident(rng.randint(1, 4), rng.randrange(8), cs)))]
+        pos = [enc.line(enc.long_frame(17, 5, addr, enc.me_airpos(11, 1000 + 25 * rng.randrange(1500), la, lo, False))),
+               enc.line(enc.long_frame(17, 5, addr, enc.me_airpos(11, 1000 + 25 * rng.randrange(1500), la, lo, True)))]
+        out += (ident + pos) if rng.random() < 0.6 else (pos + ident)
         if rng.random() < 0.7:
             out.append(enc.line(enc.long_frame(17, 5, addr, enc.me_velocity(rng.randrange(2), rng.randrange(1, 600), rng.randrange(2), rng.randrange(1, 600), rng.randrange(2), rng.randrange(1, 100)))))
     return out
